@@ -366,6 +366,26 @@ theorem foldl_bottom (startY : Int) : ∀ (l : List Shape) (m : Int),
       · omega
       · exact h2 s hs'
 
+/-- the positioned nodes of a process (before the shapes get their ids) -/
+def lpPos (cfg : Cfg) (startY : Int) (p : Proc) : List Shape :=
+  (collectNodes cfg.scale p).map (position cfg startY (computeLevels (collectNodes cfg.scale p) (collectEdges p))
+    (computeRows (collectNodes cfg.scale p) (computeLevels (collectNodes cfg.scale p) (collectEdges p)) (collectEdges p)))
+
+def lpHeight (cfg : Cfg) (startY : Int) (p : Proc) : Int :=
+  if (lpPos cfg startY p).foldl (fun m s => if s.y + s.h > m then s.y + s.h else m) startY - startY
+      < minProcessHeight cfg.scale then minProcessHeight cfg.scale
+  else (lpPos cfg startY p).foldl (fun m s => if s.y + s.h > m then s.y + s.h else m) startY - startY
+
+theorem layoutProcess_eq (o : Nat → Nat) (n : Nat) (cfg : Cfg) (startY : Int) (p : Proc) :
+    layoutProcess o n cfg startY p =
+      if (collectNodes cfg.scale p).isEmpty then ([], [], minProcessHeight cfg.scale, n)
+      else (nameShapes o n (lpPos cfg startY p),
+        (buildEdges o cfg.scale (lpPos cfg startY p) (n + (collectNodes cfg.scale p).length) (collectEdges p)).1,
+        lpHeight cfg startY p,
+        (buildEdges o cfg.scale (lpPos cfg startY p) (n + (collectNodes cfg.scale p).length) (collectEdges p)).2) := by
+  unfold layoutProcess lpHeight lpPos
+  rfl
+
 /-- what C19 needs of the shapes of ONE process, for any process whatsoever -/
 theorem layoutProcess_shapes (o : Nat → Nat) (n : Nat) (cfg : Cfg) (startY : Int) (p : Proc) (hg : GapsCover cfg) :
     (∀ s ∈ (layoutProcess o n cfg startY p).1, ∀ t ∈ (layoutProcess o n cfg startY p).1,
@@ -375,24 +395,20 @@ theorem layoutProcess_shapes (o : Nat → Nat) (n : Nat) (cfg : Cfg) (startY : I
         s.y + s.h ≤ startY + (layoutProcess o n cfg startY p).2.2.1) ∧
     0 ≤ (layoutProcess o n cfg startY p).2.2.1 := by
   obtain ⟨hnd, hsz⟩ := collectNodes_spec cfg.scale p
-  unfold layoutProcess
+  rw [layoutProcess_eq]
   by_cases hemp : (collectNodes cfg.scale p).isEmpty = true
   · simp only [hemp, if_true]
     refine ⟨by simp, by simp, ?_⟩
     simp only [minProcessHeight]; omega
   · simp only [hemp]
-    trace_state
-    generalize hnodes : collectNodes cfg.scale p = nodes at hnd hsz
-    generalize hlv : computeLevels nodes (collectEdges p) = lv
-    generalize hrows : computeRows nodes lv (collectEdges p) = rows
-    have hdist := computeRows_distinct nodes lv (collectEdges p) hnd
-    rw [hrows] at hdist
-    obtain ⟨_, hn2, _⟩ := nameShapes_spec o (nodes.map (position cfg startY lv rows)) n
-    have hsz' : ∀ a ∈ nodes, 0 ≤ a.w ∧ a.w ≤ cfg.cg ∧ 0 ≤ a.h ∧ a.h ≤ cfg.rg := by
+    have hdist := computeRows_distinct (collectNodes cfg.scale p)
+      (computeLevels (collectNodes cfg.scale p) (collectEdges p)) (collectEdges p) hnd
+    obtain ⟨_, hn2, _⟩ := nameShapes_spec o (lpPos cfg startY p) n
+    have hsz' : ∀ a ∈ collectNodes cfg.scale p, 0 ≤ a.w ∧ a.w ≤ cfg.cg ∧ 0 ≤ a.h ∧ a.h ≤ cfg.rg := by
       intro a ha
       obtain ⟨h1, h2, h3, h4⟩ := hsz a ha
       exact ⟨h1, Int.le_trans h2 hg.1, h3, Int.le_trans h4 hg.2.1⟩
-    have hfold := foldl_bottom startY (nodes.map (position cfg startY lv rows)) startY
+    have hfold := foldl_bottom startY (lpPos cfg startY p) startY
     refine ⟨?_, ?_, ?_⟩
     · intro s hs t ht hne
       obtain ⟨s', hs', e1, e2, e3, e4, e5⟩ := hn2 s hs
@@ -401,11 +417,14 @@ theorem layoutProcess_shapes (o : Nat → Nat) (n : Nat) (cfg : Cfg) (startY : I
       obtain ⟨b, hb, rfl⟩ := List.mem_map.mp ht'
       have hab : a.id ≠ b.id := by
         intro h; apply hne; rw [e1, f1]; exact h
-      have hcell : lvOf lv a.id ≠ lvOf lv b.id ∨ (rowOf rows a.id).getD 0 ≠ (rowOf rows b.id).getD 0 := by
-        by_cases hl : lvOf lv a.id = lvOf lv b.id
+      have hcell := (by
+        by_cases hl : lvOf (computeLevels (collectNodes cfg.scale p) (collectEdges p)) a.id =
+            lvOf (computeLevels (collectNodes cfg.scale p) (collectEdges p)) b.id
         · exact Or.inr (hdist a ha b hb hab hl)
-        · exact Or.inl hl
-      have := position_disjoint cfg startY lv rows a b (hsz' a ha) (hsz' b hb) hcell
+        · exact Or.inl hl :
+        lvOf (computeLevels (collectNodes cfg.scale p) (collectEdges p)) a.id ≠
+          lvOf (computeLevels (collectNodes cfg.scale p) (collectEdges p)) b.id ∨ _)
+      have := position_disjoint cfg startY _ _ a b (hsz' a ha) (hsz' b hb) hcell
       rw [disjoint_iff] at this ⊢
       rw [e2, e3, e4, e5, f2, f3, f4, f5]
       exact this
@@ -415,15 +434,117 @@ theorem layoutProcess_shapes (o : Nat → Nat) (n : Nat) (cfg : Cfg) (startY : I
       obtain ⟨a, ha, rfl⟩ := List.mem_map.mp hs'
       obtain ⟨h1, h2, h3, h4⟩ := hsz a ha
       have hrg : 0 ≤ cfg.rg := by have := hg.2.1; omega
-      have hrow : 0 ≤ (((rowOf rows a.id).getD 0 : Nat) : Int) * cfg.rg :=
+      have hrow : 0 ≤ (((rowOf (computeRows (collectNodes cfg.scale p)
+          (computeLevels (collectNodes cfg.scale p) (collectEdges p)) (collectEdges p)) a.id).getD 0 : Nat) : Int) * cfg.rg :=
         Int.mul_nonneg (Int.natCast_nonneg _) hrg
       constructor
       · rw [e3]; simp only [position]; omega
       · rw [e3, e5]
-        simp only [minProcessHeight] at *
+        show _ ≤ startY + lpHeight cfg startY p
+        unfold lpHeight
         split <;> omega
-    · simp only [minProcessHeight]
+    · show 0 ≤ lpHeight cfg startY p
+      unfold lpHeight
       have := hfold.1
+      have hmin : 0 ≤ minProcessHeight cfg.scale := by simp only [minProcessHeight]; omega
       split <;> omega
+
+end Bpmn.Lemmas.BuilderLayout
+
+namespace Bpmn.Lemmas.BuilderLayout
+open Bpmn.Model.Builder
+
+/-! ### stacking of several processes -/
+
+theorem pairwise_of_forall_mem {α : Type} {R : α → α → Prop} : ∀ (l : List α),
+    (∀ a ∈ l, ∀ b ∈ l, R a b) → l.Pairwise R := by
+  intro l
+  induction l with
+  | nil => intro _; exact List.Pairwise.nil
+  | cons x xs ih =>
+    intro h
+    exact List.Pairwise.cons (fun b hb => h x (by simp) b (List.mem_cons_of_mem _ hb))
+      (ih (fun a ha b hb => h a (List.mem_cons_of_mem _ ha) b (List.mem_cons_of_mem _ hb)))
+
+theorem layoutAll_cons_shapes (o : Nat → Nat) (cfg : Cfg) (n : Nat) (y : Int) (p : Proc) (ps : List Proc) :
+    (layoutAll o cfg n y (p :: ps)).1 = (layoutProcess o n cfg y p).1 ++
+      (layoutAll o cfg (layoutProcess o n cfg y p).2.2.2 (y + (layoutProcess o n cfg y p).2.2.1 + cfg.pg) ps).1 := rfl
+
+theorem layoutAll_cons_edges (o : Nat → Nat) (cfg : Cfg) (n : Nat) (y : Int) (p : Proc) (ps : List Proc) :
+    (layoutAll o cfg n y (p :: ps)).2.1 = (layoutProcess o n cfg y p).2.1 ++
+      (layoutAll o cfg (layoutProcess o n cfg y p).2.2.2 (y + (layoutProcess o n cfg y p).2.2.1 + cfg.pg) ps).2.1 := rfl
+
+/-- no two shapes of the whole diagram overlap (shapes of one process: when they are of different nodes;
+shapes of different processes: always), for ANY list of processes, when the gaps are at least the node sizes -/
+theorem layoutAll_shapes (o : Nat → Nat) (cfg : Cfg) (hg : GapsCover cfg) : ∀ (procs : List Proc) (n : Nat) (y : Int),
+    (∀ s ∈ (layoutAll o cfg n y procs).1, y - ((maxH * cfg.scale : Nat) : Int) / 2 ≤ s.y) ∧
+    (layoutAll o cfg n y procs).1.Pairwise (fun s t => s.elem ≠ t.elem → disjoint s t = true) := by
+  intro procs
+  induction procs with
+  | nil => intro n y; simp [layoutAll]
+  | cons p ps ih =>
+    intro n y
+    obtain ⟨hd, hext, hh⟩ := layoutProcess_shapes o n cfg y p hg
+    obtain ⟨ih1, ih2⟩ := ih (layoutProcess o n cfg y p).2.2.2 (y + (layoutProcess o n cfg y p).2.2.1 + cfg.pg)
+    rw [layoutAll_cons_shapes]
+    have hpg := hg.2.2
+    constructor
+    · intro s hs
+      rcases List.mem_append.mp hs with hs | hs
+      · exact (hext s hs).1
+      · have := ih1 s hs; omega
+    · rw [List.pairwise_append]
+      refine ⟨pairwise_of_forall_mem _ hd, ih2, ?_⟩
+      intro s hs t ht _
+      rw [disjoint_iff]
+      have h1 := (hext s hs).2
+      have h2 := ih1 t ht
+      right; right; left
+      omega
+
+/-! ### edges -/
+
+theorem buildEdges_spec (o : Nat → Nat) (scale : Nat) (bounds : List Shape) : ∀ (edges : List LEdge) (n : Nat),
+    (∀ e ∈ (buildEdges o scale bounds n edges).1, ∃ s ∈ bounds, ∃ t ∈ bounds,
+        s.elem = e.src ∧ t.elem = e.tgt ∧ e.wps = waypoints scale s t) ∧
+    ((∀ e ∈ edges, (∃ s ∈ bounds, s.elem = e.src) ∧ (∃ t ∈ bounds, t.elem = e.tgt)) →
+        (buildEdges o scale bounds n edges).1.map (·.elem) = edges.map (·.id)) := by
+  intro edges
+  induction edges with
+  | nil => intro n; simp [buildEdges]
+  | cons e es ih =>
+    intro n
+    unfold buildEdges
+    cases hs : bounds.find? (fun s => decide (s.elem = e.src)) with
+    | none =>
+      simp only
+      refine ⟨(ih n).1, ?_⟩
+      intro hall
+      exfalso
+      obtain ⟨s, hs', hse⟩ := (hall e (by simp)).1
+      have := List.find?_eq_none.mp hs s hs'
+      simp [hse] at this
+    | some s =>
+      cases ht : bounds.find? (fun s => decide (s.elem = e.tgt)) with
+      | none =>
+        simp only
+        refine ⟨(ih n).1, ?_⟩
+        intro hall
+        exfalso
+        obtain ⟨t, ht', hte⟩ := (hall e (by simp)).2
+        have := List.find?_eq_none.mp ht t ht'
+        simp [hte] at this
+      | some t =>
+        simp only
+        have hs1 : s.elem = e.src := by simpa using List.find?_some hs
+        have ht1 : t.elem = e.tgt := by simpa using List.find?_some ht
+        refine ⟨?_, ?_⟩
+        · intro e' he'
+          rcases List.mem_cons.mp he' with rfl | he'
+          · exact ⟨s, List.mem_of_find?_eq_some hs, t, List.mem_of_find?_eq_some ht, hs1, ht1, rfl⟩
+          · exact (ih (n + 1)).1 e' he'
+        · intro hall
+          simp only [List.map_cons]
+          rw [(ih (n + 1)).2 (fun e' he' => hall e' (List.mem_cons_of_mem _ he'))]
 
 end Bpmn.Lemmas.BuilderLayout
